@@ -42,7 +42,7 @@ fn bi_planar_universal<P1: ToLe + cast::Castable + Default + Copy, P2: ToLe + ca
     let mut plane2: Vec<P2> = Vec::with_capacity(plane2_len);
 
     let line_group_count = height.div_ceil(BLOCK_HEIGHT);
-    let report_frequency = usize::div_ceil(1024 * 1024, width * BLOCK_HEIGHT);
+    let report_frequency = usize::div_ceil(1024 * 1024, (width * BLOCK_HEIGHT).max(1));
     let mut group_index = 0;
     for_each_f32_rgba_rows(image, BLOCK_HEIGHT, |rows| -> Result<(), EncodingError> {
         // occasionally report progress
